@@ -4,6 +4,7 @@ from .common import *   # noqa
 
 import z3
 from pyvc.exec import Obj, Opaque
+from pyvc.nparr import sym_array, SArr
 
 IO = 'cmaqfiles/_ioapi.py'
 
@@ -65,6 +66,182 @@ class UpdateMeta(Contract):
 
 
 CONTRACTS = [UpdateMeta(s, h) for s in (False, True) for h in (False, True)]
+
+
+class GetVarlist(Contract):
+    """getVarlist(update=True) on a file holding data variables O3, NO2 (TSTEP, LAY, ROW, COL), the time flags, a 2-d
+    variable LAT (ROW, COL) -- dimension lengths, the stale NVARS value and the stale VAR length are ARBITRARY; the VAR-LIST
+    attribute is absent / stale (names a variable that no longer exists) / names a variable with the wrong dimensions /
+    is not a multiple of 16 characters.  Afterwards VAR-LIST lists exactly the data variables that exist with IOAPI
+    dimensions, 16 characters each, in order; NVARS is their number; the VAR dimension has max(NVARS, 1) entries."""
+    prop = 'C10'
+    target = IO + '::ioapi_base.getVarlist'
+    max_paths = 40
+
+    PATTERNS = {
+        'absent': (None, ['O3', 'NO2']),
+        'stale: names a missing variable': ('OLD'.ljust(16) + 'O3'.ljust(16) + 'NO2'.ljust(16), ['O3', 'NO2']),
+        'names a 2-d variable': ('O3'.ljust(16) + 'LAT'.ljust(16), ['O3']),
+        'free-form (not a multiple of 16)': ('NO2 O3', ['NO2', 'O3']),
+        'up to date': ('O3'.ljust(16) + 'NO2'.ljust(16), ['O3', 'NO2']),
+    }
+
+    def __init__(self, pattern, has_var_dim):
+        self.pattern, self.has_var_dim = pattern, has_var_dim
+        self.name = 'getVarlist[VAR-LIST %s,%s VAR dimension]' % (pattern, 'with' if has_var_dim else 'without')
+
+    def inputs(self, ctx, I):
+        from pyvc import frontend
+        ctx.modstate[(IO, '_ioapi_defaults')] = {}
+        n = {d: ctx.fresh('n_' + d) for d in ('TSTEP', 'LAY', 'ROW', 'COL')}
+        self.nvar0, self.nvars0 = ctx.fresh('old_VAR_len'), ctx.fresh('old_NVARS')
+        dims = {d: dim_obj(I, d, x) for d, x in n.items()}
+        dims['DATE-TIME'] = dim_obj(I, 'DATE-TIME', 2)
+        if self.has_var_dim:
+            dims['VAR'] = dim_obj(I, 'VAR', self.nvar0)
+        mod = frontend.load('core/_variables.py')
+        node, _ = mod.find('PseudoNetCDFVariable')
+        cls = I.classref(mod, node)
+
+        def var(name, vd):
+            a = sym_array(name, tuple(n.get(d, 2 if d == 'DATE-TIME' else self.nvar0) for d in vd), 'f')
+            a.cls = cls
+            a.attrs.update(dimensions=vd, _ncattrs=())
+            return a
+        std = ('TSTEP', 'LAY', 'ROW', 'COL')
+        vs = dict(TFLAG=var('TFLAG', ('TSTEP', 'VAR', 'DATE-TIME')), O3=var('O3', std), LAT=var('LAT', ('ROW', 'COL')), NO2=var('NO2', std))
+        attrs = dict(NVARS=self.nvars0)
+        old = self.PATTERNS[self.pattern][0]
+        if old is not None:
+            attrs['VAR-LIST'] = old
+        f = pnc_file(I, dimensions=dims, variables=vs, attrs=attrs, relpath=IO, clsname='ioapi_base')
+        self.n = n
+        return dict(self=f)
+
+    def requires(self, inp):
+        return And(ge(self.nvar0, 0), *[ge(x, 1) for x in self.n.values()])
+
+    def ensures(self, inp, res, I):
+        a = inp['self'].attrs
+        want = self.PATTERNS[self.pattern][1]
+        d = a['dimensions']
+        return [('returns-the-data-variables-in-order', list(res) == want if isinstance(res, list) else False),
+                ('VAR-LIST = names padded to 16 characters', a.get('VAR-LIST') == ''.join(k.ljust(16) for k in want)),
+                ('NVARS = number of listed variables', eq(a.get('NVARS'), len(want))),
+                ('VAR dimension = max(NVARS, 1)', 'VAR' in d and eq(d['VAR'].attrs['_len'], max(len(want), 1))),
+                ('other-dimensions-kept', And(*[eq(d[k].attrs['_len'], x) for k, x in self.n.items()])),
+                ('variables-kept', list(a['variables'].keys()) == ['TFLAG', 'O3', 'LAT', 'NO2'])]
+
+
+CONTRACTS += [GetVarlist(p, h) for p in GetVarlist.PATTERNS for h in (True, False)]
+
+
+class UpdateTflag(Contract):
+    """updatetflag(overwrite=True) on a file with SDATE / STIME / TSTEP attributes, ARBITRARY numbers of steps and of
+    variables: the regenerated TFLAG has shape (steps, NVARS, 2); for every step t and every variable column v the pair
+    (TFLAG[t, v, 0], TFLAG[t, v, 1]) is a VALID (YYYYJJJ, HHMMSS) flag that denotes the instant start + t * step; SDATE/STIME
+    are the first flag afterwards (and denote the same instant as before)."""
+    prop = 'C10'
+    target = IO + '::ioapi_base.updatetflag'
+    max_paths = 40
+
+    def __init__(self, had_tflag):
+        self.had = had_tflag
+        self.name = 'updatetflag[overwrite,%s old TFLAG]' % ('with' if had_tflag else 'without')
+
+    def inputs(self, ctx, I):
+        from pyvc import frontend
+        ctx.modstate[(IO, '_ioapi_defaults')] = {}
+        self.nt, self.nv = ctx.fresh('nsteps'), ctx.fresh('nvars')
+        self.sdate, self.stime, self.tstep = ctx.fresh('SDATE'), ctx.fresh('STIME'), ctx.fresh('TSTEP')
+        dims = {'TSTEP': dim_obj(I, 'TSTEP', self.nt, unlimited=True), 'VAR': dim_obj(I, 'VAR', self.nv), 'DATE-TIME': dim_obj(I, 'DATE-TIME', 2)}
+        vs = {}
+        if self.had:
+            mod = frontend.load('core/_variables.py')
+            node, _ = mod.find('PseudoNetCDFVariable')
+            a = sym_array('old_TFLAG', (self.nt, self.nv, 2), 'i')
+            a.cls = I.classref(mod, node)
+            a.attrs.update(dimensions=('TSTEP', 'VAR', 'DATE-TIME'), _ncattrs=())
+            vs['TFLAG'] = a
+        f = pnc_file(I, dimensions=dims, variables=vs, attrs=dict(SDATE=self.sdate, STIME=self.stime, TSTEP=self.tstep, NVARS=self.nv),
+                     relpath=IO, clsname='ioapi_base')
+        return dict(self=f, overwrite=True)
+
+    def requires(self, inp):
+        from pyvc.dt import days_in_year
+        y, j = sym.floordiv(self.sdate, 1000), sym.mod(self.sdate, 1000)
+        h, m, sec = sym.floordiv(self.stime, 10000), sym.mod(sym.floordiv(self.stime, 100), 100), sym.mod(self.stime, 100)
+        th, tm, ts = sym.floordiv(self.tstep, 10000), sym.mod(sym.floordiv(self.tstep, 100), 100), sym.mod(self.tstep, 100)
+        return And(ge(self.nt, 1), ge(self.nv, 1), ge(y, 1), le(y, 9000), ge(j, 1), le(j, days_in_year(y)),
+                   ge(self.stime, 0), lt(h, 24), lt(m, 60), lt(sec, 60), gt(self.tstep, 0), lt(tm, 60), lt(ts, 60), le(th, 1000), le(self.nt, 100000))
+
+    def small(self, inp):
+        # counter-model search: a concrete start (last hour of a leap year) and hourly steps, up to 3 steps and 2 variables
+        return And(le(self.nt, 3), le(self.nv, 2), eq(self.sdate, 2020366), eq(self.stime, 230000), eq(self.tstep, 10000))
+
+    def ensures(self, inp, res, I):
+        from pyvc.dt import instant_yyyyjjj, days_in_year
+        a = inp['self'].attrs
+        tf = a['variables'].get('TFLAG')
+        if not isinstance(tf, SArr) or tf.ndim != 3:
+            return [('TFLAG-regenerated', False)]
+        t, v = z3.Int('t'), z3.Int('v')
+        rng = And(ge(t, 0), lt(t, self.nt), ge(v, 0), lt(v, self.nv))
+        d, tm = tf.get(t, v, 0), tf.get(t, v, 1)
+        step_s = add(add(mul(sym.floordiv(self.tstep, 10000), 3600), mul(sym.mod(sym.floordiv(self.tstep, 100), 100), 60)), sym.mod(self.tstep, 100))
+        start = instant_yyyyjjj(self.sdate, self.stime)
+        y, j = sym.floordiv(d, 1000), sym.mod(d, 1000)
+        valid = And(ge(y, 1), ge(j, 1), le(j, days_in_year(y)), ge(tm, 0), lt(sym.floordiv(tm, 10000), 24),
+                    lt(sym.mod(sym.floordiv(tm, 100), 100), 60), lt(sym.mod(tm, 100), 60))
+        return [('shape = (steps, NVARS, 2)', And(eq(tf.shape[0], self.nt), eq(tf.shape[1], self.nv), eq(tf.shape[2], 2))),
+                ('dimensions', tuple(tf.attrs.get('dimensions', ())) == ('TSTEP', 'VAR', 'DATE-TIME')),
+                ('every flag is a valid (YYYYJJJ, HHMMSS) pair', Implies(rng, valid)),
+                ('flag t denotes start + t * step, in every variable column', Implies(rng, eq(instant_yyyyjjj(d, tm), add(start, mul(t, step_s))))),
+                ('SDATE/STIME are the first flag', And(eq(a['SDATE'], tf.get(0, 0, 0)), eq(a['STIME'], tf.get(0, 0, 1)))),
+                ('start instant unchanged', eq(instant_yyyyjjj(a['SDATE'], a['STIME']), start)),
+                ('TSTEP unchanged', eq(a['TSTEP'], self.tstep))]
+
+
+    # -- replay on the real function (independent julian arithmetic as the reference) ---------------------------------
+    def concretize(self, model, inp):
+        from pyvc.verify import model_value
+        return {k: model_value(model, getattr(self, k)) for k in ('nt', 'nv', 'sdate', 'stime', 'tstep')}
+
+    def concretize_without_model(self, inp):
+        return dict(nt=3, nv=2, sdate=2020366, stime=230000, tstep=10000)
+
+    def replay(self, c):
+        import datetime
+        import numpy as np
+        from rtc import harness as H, ioapi as IOH
+        P = H.real()
+        out = None
+        for cand in (c, dict(nt=3, nv=2, sdate=2020366, stime=230000, tstep=10000)):
+            nt, nv, sdate, stime, tstep = (int(cand[k]) for k in ('nt', 'nv', 'sdate', 'stime', 'tstep'))
+            if not (1 <= nt <= 200 and 1 <= nv <= 5 and 1000 <= sdate // 1000 <= 9000):
+                continue
+            f = IOH.make_ioapi(P, nt=nt, nvars=nv, sdate=sdate, stime=stime, tstep=tstep)
+            try:
+                f.updatetflag(overwrite=True)
+                tf = np.asarray(f.variables['TFLAG'][...])
+                f.getTimes()
+            except Exception as e:
+                return False, dict(steps=nt, nvars=nv, SDATE=sdate, STIME=stime, TSTEP=tstep, raised=type(e).__name__, message=str(e)[:160],
+                                   SDATE_after=repr(getattr(f, 'SDATE', None)), STIME_after=repr(getattr(f, 'STIME', None)))
+            t0 = datetime.datetime(sdate // 1000, 1, 1) + datetime.timedelta(days=sdate % 1000 - 1, hours=stime // 10000, minutes=stime // 100 % 100, seconds=stime % 100)
+            dt = datetime.timedelta(hours=tstep // 10000, minutes=tstep // 100 % 100, seconds=tstep % 100)
+            exp = [(int((t0 + i * dt).strftime('%Y%j')), int((t0 + i * dt).strftime('%H%M%S'))) for i in range(nt)]
+            ok = tf.shape == (nt, nv, 2) and all(tuple(int(x) for x in tf[i, v]) == exp[i] for i in range(nt) for v in range(nv)) \
+                and (int(f.SDATE), int(f.STIME)) == exp[0] and int(f.TSTEP) == tstep
+            r = (ok, dict(steps=nt, nvars=nv, SDATE=sdate, STIME=stime, TSTEP=tstep, TFLAG_first_column=tf[:, 0].tolist()[:4], expected=exp[:4],
+                          SDATE_after=int(f.SDATE), STIME_after=int(f.STIME)))
+            if not ok:
+                return r
+            out = out or r
+        return out
+
+
+CONTRACTS += [UpdateTflag(False), UpdateTflag(True)]
 
 
 
@@ -174,9 +351,14 @@ def bounded_replay(p):
 
 META = dict(
     level='other',
-    technique='updatemeta proved by pyvc (modular, callees as assumed frames); the full coherence invariant by bounded run-time contract over operation sequences',
-    text='Proved for any dimension lengths and any previous attribute values: after updatemeta the row/column/layer count attributes equal the dimension lengths, TSTEP is unlimited, DATE-TIME '
-         'exists with length 2, and the variable list is refreshed before the time flags. Bounded: the complete ioapi_wf invariant after every operation sequence of the stated bound.',
-    note='getVarlist/_updatetime/updatetflag are assumed frames inside the proof; VAR-LIST string handling and TFLAG regeneration are bounded only.',
-    assumptions=[],
-    explanation='mixed: proof obligations for updatemeta + bounded exploration of operation sequences')
+    technique='updatemeta, getVarlist and updatetflag proved by pyvc (calendar arithmetic with a trusted strftime model, arithmetic hints validated by the solver); '
+              'the full coherence invariant by bounded run-time contract over operation sequences',
+    text='Proved: (1) updatemeta, any dimension lengths and stale attribute values: NLAYS/NROWS/NCOLS equal the dimension lengths, TSTEP unlimited, DATE-TIME = 2, variable list '
+         'refreshed before the time flags; (2) getVarlist for five VAR-LIST patterns (absent / stale / wrong dimensions / free-form / up to date) on files of arbitrary size: VAR-LIST '
+         'names exactly the existing IOAPI data variables at 16 characters each, NVARS is their number, VAR = max(NVARS, 1); (3) updatetflag(overwrite) for ANY start date / time / step '
+         'and any numbers of steps and variables: every regenerated flag is a valid (YYYYJJJ, HHMMSS) pair denoting start + t*step in every variable column, SDATE/STIME are the first '
+         'flag and denote the same instant as before. Bounded: the complete ioapi_wf invariant after every operation sequence of the stated bound.',
+    note='inside updatemeta the three callees are assumed frames (each is proved on its own here); the variable names of the getVarlist instances are concrete; '
+         'datetime.strftime is a trusted model (inverse of the day-number map). Operation wrappers (slice/apply/eval/stack...) are bounded only.',
+    assumptions=["datetime.strftime('%Y%j'/'%H%M%S') as modelled in pyvc/dt.py (trusted); datetime.now() arbitrary"],
+    explanation='mixed: proof obligations for updatemeta / getVarlist / updatetflag + bounded exploration of operation sequences')
